@@ -60,13 +60,33 @@ let c04_ok (input : M.byte list) (impl : string) : bool =
       && get "v" f = (if sh.M.s_minor then "1" else "0")
       && (Printf.sprintf "cl=%s ch=%s cc=%s h=%s" (get "cl" f) (get "ch" f) (get "cc" f) (get "h" f)) = hdrs_str h
 
+(* C01: every text piece reported for an accepted request (method, target and its parts) is a substring of the input
+   (Spec/Substr.v `sublist`), compared on the hex form at byte alignment *)
+let hex_sub (hay : string) (needle : string) : bool =
+  let n = String.length needle and h = String.length hay in
+  if n = 0 then true else begin
+    let found = ref false and i = ref 0 in
+    while not !found && !i + n <= h do
+      if String.sub hay !i n = needle then found := true else i := !i + 2
+    done; !found end
+let c01_sub_ok (input : M.byte list) (impl : string) : bool =
+  if not (is_ok impl) then true else
+    let f = kv impl and hay = hex_of_bytes input in
+    let piece k =
+      let v = get k f in
+      (* accessor results are printed as <hex>, `none`, `-`, or an error word: only hex strings are pieces of text *)
+      if v = "?" || v = "-" || v = "none" || v = "" then true
+      else if String.length v mod 2 = 0 && String.for_all (fun c -> (c >= '0' && c <= '9') || (c >= 'a' && c <= 'f')) v then hex_sub hay v
+      else true in
+    List.for_all piece ["m"; "t"; "path"; "q"; "sch"; "auth"; "pq"]
+
 let parse_case (case : string) : bool * M.byte list =
   (case.[0] = 'Q', bytes_of_hex (String.sub case 1 (String.length case - 1)))
 
 let eval_parse case impl =
   let (is_req, input) = parse_case case in
   let model = if is_req then request_line input else response_line input in
-  let fails = (if is_faulty impl then [("C01", "-")] else [])
+  let fails = (if is_faulty impl || (is_req && not (c01_sub_ok input impl)) then [("C01", "-")] else [])
               @ (if is_req && not (is_faulty impl) && not (c04_ok input impl) then [("C04", "-")] else []) in
   (model, fails)
 
@@ -166,5 +186,27 @@ let eval_clientread case impl =
       else if starts "OK," first then "answered" else "other" in
     let same = List.for_all (fun t -> t = first) ts in
     let m = cls ^ " same" in
-    ((if icls ^ (if same then " same" else " differs") = m then impl else m), (if same && icls = cls then [] else [("C03", "-")]))
+    (* C06 on the client side: the body the caller reads is the payload the framing fields delimit (the peer closes after the
+       last byte): chunked -> the decoded payload, Content-Length n -> the next n bytes, neither -> everything up to the close *)
+    let c06_bad =
+      match M.parse_response input with
+      | M.Ok r ->
+        let rec drop n l = if n = 0 then l else (match l with [] -> [] | _ :: t -> drop (n - 1) t) in
+        let rest = drop (int_of_nat r.M.r_offset) input in
+        let h = r.M.r_hdrs in
+        let expected =
+          if h.M.chunked then
+            (match M.spec_decode rest with M.Valid (p, _) -> Some (hex_of_bytes p) | M.Invalid _ -> Some "BODYERR" | M.Unspecified -> None)
+          else match h.M.content_length with
+            | Some n -> let n = int_of_n n in
+              if List.length rest >= n then Some (hex_of_bytes (List.filteri (fun i _ -> i < n) rest)) else Some "BODYERR"
+            | None -> Some (hex_of_bytes rest) in
+        (match expected with
+         | None -> false
+         | Some e ->
+           let want = Printf.sprintf "OK,%d,%s" (int_of_n r.M.r_code) e in
+           List.exists (fun t -> starts "OK," t && t <> want) ts)
+      | _ -> false in
+    ((if icls ^ (if same then " same" else " differs") = m then impl else m),
+     (if same && icls = cls then [] else [("C03", "-")]) @ (if c06_bad then [("C06", "-")] else []))
   | _ -> failwith "bad clientread case"
